@@ -1,20 +1,25 @@
 /-
-Column lineage of a write statement over ONE flat SELECT block, end to end (used by `Props/C02.lean`,
-`pairs_exact_flat_partial`).
+Column lineage of a write statement over flat SELECT blocks, end to end (used by `Props/C02.lean`: `pairs_exact_flat_partial`,
+`pairs_exact_collist_partial`, `pairs_exact_setop_partial`, `select_moves_no_column_partial`).
 
-The statement `INSERT INTO T <select>` / `CREATE TABLE T AS <select>` / `CREATE VIEW T AS <select>` (no column list, no
-metadata provider) is followed through `analyze` → `exWriteQuery` → `exQuery` → `finishBranches` → `endOfQueryCleanup` →
-`cleanupGroup` → `cleanupItem` → `addColumnLineage` → `expandWildcard` → `compose`, and the LINEAGE and HAS_COLUMN edges of
-the resulting statement holder are characterised by a specification that only looks at the AST (`specPairs`).
+The statement `INSERT INTO T [(c1..cn)] <q>` / `CREATE TABLE T AS <q>` / `CREATE VIEW T [(c1..cn)] AS <q>` (no metadata
+provider), `<q>` one flat SELECT block or a set operation of flat blocks, is followed through `analyze` → `exWriteQuery` →
+`exQuery` → `finishBranches` → `endOfQueryCleanup` → `cleanupGroup` → `cleanupItem` → `addColumnLineage` → `expandWildcard` →
+`compose`, and EVERY edge of the resulting statement holder (LINEAGE, HAS_COLUMN, HAS_ALIAS) is characterised by a
+specification that only looks at the AST (`specPairs`, `specPairsPos`, `specPairsUnion`).
 
 Sections
-  1. the specification (`fromTabs`, `specAliasMap`, `resolveQ`, `srcCol`, `tgtCol`, `specPairs`) and the fragment (`fragStmt`)
+  1. the specification (`fromTabs`, `specAliasMap`, `resolveQ`, `srcCol`, `srcKeys`, `tgtCol`, `specPairs`) and the fragment
+     (`fragStmt`)
   2. alias map lookups: `amGet` of the holder's alias map = `amGet` of the specification's
-  3. the holder after the reads (`tabs.foldl addReadO g0`)
-  4. `toSourceColumns` on the fragment
-  5. the wiring invariant `Wired` through `addColumnLineage` / `cleanupItem` / `cleanupGroup`
+  3. the holder after the reads (`tabs.foldl addReadO B`, `ReadBase`)
+  4. `toSourceColumns` on the fragment (`toSourceColumns_keys`)
+  5. the wiring invariant `Wired` through `addColumnLineage` / `cleanupItem` / `cleanupGroup` (own‑name wiring)
   6. `expandWildcard` without provider is the identity on these holders
-  7. the walk on the fragment and the statement‑level theorem
+  7. the walk on the fragment and the statement‑level theorem (`analyze_exact`); a plain SELECT (`analyze_plain`)
+  8. an explicit column list: positional wiring (`WC`, `cleanupFoldPos_wired`, `analyze_exact_cols`)
+  9. set operations: first group by own names ending in `WC`, later groups by position, `finishBranches` with union barriers
+     as a loop over groups (`go_groups`, `finishBranches_groups`, `analyze_exact_setop`)
 -/
 import SqlLineage.Proofs.ReadsExact
 import SqlLineage.Proofs.ExportLemmas
